@@ -23,6 +23,7 @@ import (
 
 	"github.com/B1NARY-GR0UP/originium/pkg/logger"
 	"github.com/B1NARY-GR0UP/originium/pkg/skiplist"
+	"github.com/B1NARY-GR0UP/originium/pkg/verifhook"
 	"github.com/B1NARY-GR0UP/originium/types"
 	"github.com/B1NARY-GR0UP/originium/utils"
 	"github.com/B1NARY-GR0UP/originium/wal"
@@ -99,6 +100,7 @@ func (mt *memtable) recover() int64 {
 			}
 		}
 
+		verifhook.At("rec.wal", file, len(entries))
 		if err = l.Delete(); err != nil {
 			mt.logger.Panicf("delete wal %v failed: %v", file, err)
 		}
